@@ -61,6 +61,9 @@ Next == Step
 FailedEvent(r, e, seenBefore, previous) ==
   IF e.kind = "construct"
   THEN (IF e.raised = "" THEN {} ELSE {"construction_raised"})
+       \* building a decoder reads the channel (matching weights, priors): it
+       \* must leave the model's tables exactly as they were
+       \cup (IF e.raised # "" \/ e.tables_intact THEN {} ELSE {"noise_tables_not_modified"})
   ELSE
      (IF e.raised = "" THEN {} ELSE {"decode_raised"})
 \cup (IF e.raised # "" \/ (e.len = 2 * r.n /\ e.binary) THEN {} ELSE {"binary_vector_of_length_2n"})
